@@ -181,13 +181,20 @@ def gen_model(rng, *, opset: int | None = None, features: dict | None = None, ex
     inits = []
     vinfo = []
 
+    # -- `no_fold`: a model in which constant folding finds nothing to fold or replace (no constant subexpression,
+    #    no Identity, no same-type Cast, no growing fold) but still *annotates* the IR (shape inference on nodes
+    #    without value_info, Constant outputs): FoldConstantsResult.modified stays False
+    no_fold = opt("no_fold", 0.15)
+    if no_fold:
+        f.update(cast_cast=False, expand_fold="none", big_initializer="none", subgraph_if=False)
     # -- foldable constant part and the main chain
     w1 = helper.make_tensor("w1", TP.FLOAT, [4], [1.0, 2.0, 3.0, 4.0])
     w2v = np.array([0.5, 0.5, -0.0, 1.0], dtype=np.float32)
     w2 = helper.make_tensor("w2", TP.FLOAT, [4], w2v.tobytes(), raw=True) if opt("w2_raw") else helper.make_tensor("w2", TP.FLOAT, [4], w2v.tolist())
     inits += [w1, w2]
-    nodes.append(helper.make_node("Add", ["w1", "w2"], ["c"], name="n_fold"))
-    nodes.append(helper.make_node("Mul", ["x", "c"], ["t"], name="n_mul"))
+    if not no_fold:
+        nodes.append(helper.make_node("Add", ["w1", "w2"], ["c"], name="n_fold"))
+    nodes.append(helper.make_node("Mul", ["x", "w1" if no_fold else "c"], ["t"], name="n_mul"))
     nodes.append(helper.make_node("Relu", ["t"], ["u"], name="n_relu"))
     vinfo.append(helper.make_tensor_value_info("t", TP.FLOAT, [N, 4]))
     vinfo.append(helper.make_tensor_value_info("u", TP.FLOAT, [N, 4]))
@@ -290,7 +297,7 @@ def gen_model(rng, *, opset: int | None = None, features: dict | None = None, ex
     if opt("second_custom_domain", 0.3):
         nodes.append(helper.make_node("Probe", [cur], ["probe_out"], domain=CUSTOM2, name="n_probe", level=3))
         sink_extra.append("probe_out")
-    nodes.append(helper.make_node("Identity", [cur], ["y"], name="n_out"))
+    nodes.append(helper.make_node("Abs" if no_fold else "Identity", [cur], ["y"], name="n_out"))
 
     # -- exotic initializers kept alive by a schema-less custom op
     exotic = []
